@@ -1,12 +1,14 @@
 #!/bin/sh
-# confirm a sub-agent's seeded change in its scratch worktree: suite green with the change (demo excluded), demo fails with it, passes without
+# confirm a sub-agent's seeded change in its scratch worktree, from its patch.diff (never git stash: the stash is shared by all worktrees):
+# suite green with the change (demo excluded), demo fails with it, passes without
 W="$1"; ID="$2"; FEAT="$3"; DEMO="${4:-$2}"
 cd "$W" || exit 2
-mv tests/demo_$DEMO.rs /tmp/demo_$DEMO.rs.keep
+git checkout -q -- src && git apply patch.diff || { echo "patch.diff does not apply to a clean src"; exit 2; }
+mv tests/demo_$DEMO.rs /tmp/demo_$DEMO.$$.keep
 A=$(cargo test --offline $FEAT 2>&1 | grep -E "^test result" | awk '{p+=$4; f+=$6} END {print p" passed "f" failed"}')
-mv /tmp/demo_$DEMO.rs.keep tests/demo_$DEMO.rs
+mv /tmp/demo_$DEMO.$$.keep tests/demo_$DEMO.rs
 B=$(cargo test --offline $FEAT --test demo_$DEMO 2>&1 | grep -E "^test result" | head -1)
-git stash push -q -- src
+git checkout -q -- src
 C=$(cargo test --offline $FEAT --test demo_$DEMO 2>&1 | grep -E "^test result" | head -1)
-git stash pop -q
+git apply patch.diff
 echo "suite with change: $A | demo with change: $B | demo without: $C"
